@@ -1,6 +1,7 @@
 import GramModel.Lemmas.ArmsTie
 import GramModel.Lemmas.Listing
 import GramModel.Lemmas.ParserSpan
+import GramModel.Lemmas.ResolveRanges
 
 /-!
 # C15 — diagnostics point at the offending source text (the excerpt renderer)
@@ -388,3 +389,270 @@ known to report, in order.  Together with span exactness (the range of a node is
 the range is precisely the text of the offending subexpression" at every reporting site of the checker. -/
 def C15_type_error_sites_stmt : Prop := errSitesOK Generated.checkErrSites = true
 theorem C15_type_error_sites : C15_type_error_sites_stmt := by unfold C15_type_error_sites_stmt; decide
+
+
+/-! ## Scoping diagnostics: which range `resolve_variables` reports, when, and in which order
+
+Statements about `PModel.resolve` / `PModel.resolveAux` (the model of `resolve_variables` in
+`src/parser.rs`), proved in `Lemmas/ResolveRanges.lean`.
+
+Vocabulary.  `PModel.events t chain` is the sequence of *scope events* of the resolver on `t` in the order
+in which they happen: `Ev.var r x` (a variable node of range `r`), `Ev.bind v` (entry of a binder — λ, Π, or
+a definition of a group; `v.range` is the range of the binder's identifier), `Ev.unbind x` (a scope guard
+removes `x`).  For a group all `bind` events of the flattened group come first, then annotation and definition
+of each member in source order, then the body, then the `unbind`s.  `PModel.runE evs B` interprets a sequence
+from the set of bound names `B`: a `var` event reports `r` iff `x` is not the placeholder and not bound at
+that point; a `bind` event reports `v.range` iff `v.name` is not the placeholder and bound at that point
+(`C15_scope_error_classified`); nothing else reports.  Every report is a one-range listing `[r]`.
+`PModel.varRanges t` / `PModel.binderRanges t`: the ranges of the non-placeholder variable nodes / binder
+identifiers of `t`, by structural recursion.  `PModel.traversalRanges t`: the candidate ranges in event
+order. -/
+
+/-- **Exactness** (C08 at range level).  In any context and at any depth, `resolve` appends to the error list
+exactly what the event interpretation reports on the tree, starting from the keys of the current context. -/
+def C15_scope_errors_exact_stmt : Prop :=
+  ∀ (t : PModel.Src) (depth : Nat) (st st' : PModel.RState) (r : PModel.RTm),
+    PModel.resolve t depth st = some (r, st') →
+    st'.errors = st.errors ++
+      (PModel.runE (PModel.events t false) (PModel.Ctx.keys st.ctx)).map (fun r => [r])
+theorem C15_scope_errors_exact : C15_scope_errors_exact_stmt :=
+  fun _ _ _ _ _ h => PModel.resolve_errors_exact h
+
+/-- What the interpretation reports: exactly the unbound variable occurrences (range of the variable node)
+and the re-bound binders (range of the binder's identifier), placeholders never. -/
+def C15_scope_error_classified_stmt : Prop :=
+  ∀ (evs : List PModel.Ev) (B : PModel.Bound) (r : PModel.SourceRange),
+    r ∈ PModel.runE evs B ↔
+      (∃ pre post x, evs = pre ++ .var r x :: post ∧ x ≠ PModel.placeholder ∧
+        PModel.runB pre B x = false) ∨
+      (∃ pre post v, evs = pre ++ .bind v :: post ∧ v.name ≠ PModel.placeholder ∧
+        PModel.runB pre B v.name = true ∧ r = v.range)
+theorem C15_scope_error_classified : C15_scope_error_classified_stmt := PModel.mem_runE
+
+/-- Every error recorded by the resolver on `t` (any context, any depth, any chain position) is a one-range
+listing whose range is that of a variable node of `t` or the identifier range of a binder of `t`. -/
+def C15_scope_error_ranges_stmt : Prop :=
+  ∀ (t : PModel.Src) (chain : Option (Nat × Nat)) (depth : Nat) (st st' : PModel.RState)
+    (res : PModel.RDefs × PModel.RTm),
+    PModel.resolveAux t chain depth st = some (res, st') →
+    ∃ new : List PModel.PErr, st'.errors = st.errors ++ new ∧
+      ∀ e ∈ new, ∃ r, e = [r] ∧ (r ∈ PModel.varRanges t ∨ r ∈ PModel.binderRanges t)
+theorem C15_scope_error_ranges : C15_scope_error_ranges_stmt := by
+  intro t chain depth st st' res h
+  obtain ⟨rs, h1, h2⟩ := PModel.resolveAux_errors_ranges h
+  refine ⟨_, h1, fun e he => ?_⟩
+  obtain ⟨r, hr, rfl⟩ := List.mem_map.1 he
+  exact ⟨r, rfl, h2 r hr⟩
+
+/-- The errors are recorded in traversal order: the new ranges form a sublist of `traversalRanges t`.
+(This is *not* source order for a group: all the names of the group are registered before any annotation or
+definition is resolved — see the example `a = u; a = v; w` below.) -/
+def C15_scope_errors_in_traversal_order_stmt : Prop :=
+  ∀ (t : PModel.Src) (depth : Nat) (st st' : PModel.RState) (r : PModel.RTm),
+    PModel.resolve t depth st = some (r, st') →
+    ∃ rs : List PModel.SourceRange, st'.errors = st.errors ++ rs.map (fun r => [r]) ∧
+      rs.Sublist (PModel.traversalRanges t) ∧
+      ∀ r ∈ rs, r ∈ PModel.varRanges t ∨ r ∈ PModel.binderRanges t
+theorem C15_scope_errors_in_traversal_order : C15_scope_errors_in_traversal_order_stmt :=
+  fun _ _ _ _ _ h => PModel.resolve_errors_sublist h
+
+/-- The three re-association passes between parsing and resolution do not change the event sequence (they
+re-bracket chains; events are a list). -/
+def C15_reassoc_keeps_events_stmt : Prop :=
+  ∀ (t t1 t2 t3 : PModel.Src), PModel.reassociateApplications t = some t1 →
+    PModel.reassociateProductsAndQuotients t1 = some t2 →
+    PModel.reassociateSumsAndDifferences t2 = some t3 →
+    PModel.events t3 false = PModel.events t false
+theorem C15_reassoc_keeps_events : C15_reassoc_keeps_events_stmt :=
+  fun _ _ _ _ h1 h2 h3 => PModel.reassoc_passes_events h1 h2 h3
+
+/-- The statement as first written: every scoping range of a parsed program is exactly the range of an
+identifier token.  **False**: `parse_group` returns the inner node with the range of the parentheses, so for
+a parenthesised variable `(y)` the "not in scope" diagnostic underlines `(y)`. -/
+def C15_scope_error_is_identifier_unrestricted : Prop :=
+  ∀ (toks : Array PModel.PTok) (nt : PModel.NT) (a b : Nat) (s s1 s2 s3 : PModel.Src) (depth : Nat)
+    (st st' : PModel.RState) (r : PModel.RTm),
+    PModel.SegT toks nt a b s → PModel.reassociateApplications s = some s1 →
+    PModel.reassociateProductsAndQuotients s1 = some s2 →
+    PModel.reassociateSumsAndDifferences s2 = some s3 →
+    PModel.resolve s3 depth st = some (r, st') →
+    ∃ new : List PModel.PErr, st'.errors = st.errors ++ new ∧
+      ∀ e ∈ new, ∃ (i : Nat) (hi : i < toks.size) (x : Name), a ≤ i ∧ i < b ∧
+        toks[i].kind = .identifier x ∧ e = [toks[i].range]
+
+/-- The tokens of `(y)` (bytes: `(`0 `y`1 `)`2). -/
+def C15_parenToks : Array PModel.PTok := #[
+  ⟨.leftParen, ⟨0, 1⟩⟩, ⟨.identifier 1, ⟨1, 2⟩⟩, ⟨.rightParen, ⟨2, 3⟩⟩]
+
+theorem C15_parenToks_no_0_3 :
+    ∀ i : Fin C15_parenToks.size, C15_parenToks[i].range ≠ ⟨0, 3⟩ := by decide
+
+theorem C15_scope_error_is_identifier_refuted : ¬ C15_scope_error_is_identifier_unrestricted := by
+  intro H
+  obtain ⟨r, st, hr, ho⟩ := PModel.runParser_eval C15_parenToks 40
+    (fun r => (PModel.collectErrors r.term, r.next, PModel.scopeErrorsOf r.term []))
+    ([], 3, some [[⟨0, 3⟩]]) (by decide +kernel)
+  simp only [Prod.mk.injEq] at ho
+  obtain ⟨hce, hn, hse⟩ := ho
+  have hseg := PModel.runParser_spans hr hce
+  rw [hn] at hseg
+  obtain ⟨t1, t2, t3, res, st', h1, h2, h3, h4, h5⟩ := PModel.scopeErrorsOf_some hse
+  obtain ⟨new, hnew, hall⟩ := H _ _ _ _ _ _ _ _ _ _ _ _ hseg h1 h2 h3 h4
+  simp only [List.nil_append] at hnew
+  rw [h5] at hnew; subst hnew
+  obtain ⟨i, hi, x, _, _, _, he⟩ := hall _ (List.mem_singleton.2 rfl)
+  exact C15_parenToks_no_0_3 ⟨i, hi⟩ (by simpa using he.symm)
+
+/-- **Corrected statement.**  For a tree `s` that is the parse tree of the tokens `[a, b)`, re-associated and
+then resolved (any context, any depth): every scoping error is a one-range listing, the ranges come in the
+traversal order of `s`, and each range is `ScopeRange toks a b`: either the segment
+`( … ( x ) … )` of an identifier token `x` of `[a, b)` wrapped in `k ≥ 0` pairs of parentheses (an unbound
+variable: `k = 0` is the bare identifier token), or the identifier token of a binder of `[a, b)`
+(a re-bound name). -/
+def C15_scope_error_is_identifier_fixed_stmt : Prop :=
+  ∀ (toks : Array PModel.PTok) (nt : PModel.NT) (a b : Nat) (s s1 s2 s3 : PModel.Src) (depth : Nat)
+    (st st' : PModel.RState) (r : PModel.RTm),
+    PModel.SegT toks nt a b s → PModel.reassociateApplications s = some s1 →
+    PModel.reassociateProductsAndQuotients s1 = some s2 →
+    PModel.reassociateSumsAndDifferences s2 = some s3 →
+    PModel.resolve s3 depth st = some (r, st') →
+    ∃ rs : List PModel.SourceRange, st'.errors = st.errors ++ rs.map (fun r => [r]) ∧
+      rs.Sublist (PModel.traversalRanges s) ∧
+      ∀ r ∈ rs,
+        (∃ lo hi x k, a ≤ lo ∧ hi ≤ b ∧ hi = lo + 2 * k + 1 ∧
+          PModel.KAt toks (lo + k) (.identifier x) ∧
+          (∀ j, j < k → PModel.KAt toks (lo + j) .leftParen ∧ PModel.KAt toks (hi - 1 - j) .rightParen) ∧
+          r = PModel.rng toks lo hi) ∨
+        (∃ (i : Nat) (hi : i < toks.size) (x : Name), a ≤ i ∧ i < b ∧
+          toks[i].kind = .identifier x ∧ r = toks[i].range)
+theorem C15_scope_error_is_identifier_fixed : C15_scope_error_is_identifier_fixed_stmt := by
+  intro toks nt a b s s1 s2 s3 depth st st' r hs h1 h2 h3 h
+  obtain ⟨rs, e1, e2, e3⟩ := PModel.parsed_scope_errors hs h1 h2 h3 h
+  refine ⟨rs, e1, e2, fun r hr => ?_⟩
+  rcases e3 r hr with ⟨lo, hi, x, p1, p2, ⟨k, q1, q2, q3⟩, p4⟩ | ⟨i, x, p1, p2, ⟨hlt, hk⟩, rfl⟩
+  · exact Or.inl ⟨lo, hi, x, k, p1, p2, q1, q2, q3, p4⟩
+  · exact Or.inr ⟨i, hlt, x, p1, p2, hk, PModel.tokenRange_lt hlt⟩
+
+/-- Where no identifier stands alone between parentheses (`( x )` does not occur in the token array), the
+original statement holds: every scoping range is exactly the range of an identifier token of `[a, b)`. -/
+def C15_scope_error_is_identifier_stmt : Prop :=
+  ∀ (toks : Array PModel.PTok) (nt : PModel.NT) (a b : Nat) (s s1 s2 s3 : PModel.Src) (depth : Nat)
+    (st st' : PModel.RState) (r : PModel.RTm),
+    (∀ i x, PModel.KAt toks i .leftParen → PModel.KAt toks (i + 1) (.identifier x) →
+      PModel.KAt toks (i + 2) .rightParen → False) →
+    PModel.SegT toks nt a b s → PModel.reassociateApplications s = some s1 →
+    PModel.reassociateProductsAndQuotients s1 = some s2 →
+    PModel.reassociateSumsAndDifferences s2 = some s3 →
+    PModel.resolve s3 depth st = some (r, st') →
+    ∃ new : List PModel.PErr, st'.errors = st.errors ++ new ∧
+      ∀ e ∈ new, ∃ (i : Nat) (hi : i < toks.size) (x : Name), a ≤ i ∧ i < b ∧
+        toks[i].kind = .identifier x ∧ e = [toks[i].range]
+theorem C15_scope_error_is_identifier : C15_scope_error_is_identifier_stmt := by
+  intro toks nt a b s s1 s2 s3 depth st st' r hn hs h1 h2 h3 h
+  obtain ⟨rs, e1, _, e3⟩ := PModel.parsed_scope_errors hs h1 h2 h3 h
+  refine ⟨_, e1, fun e he => ?_⟩
+  obtain ⟨r, hr, rfl⟩ := List.mem_map.1 he
+  obtain ⟨i, hi, x, p1, p2, p3, p4⟩ := (e3 r hr).ident hn
+  exact ⟨i, hi, x, p1, p2, p3, by rw [p4]⟩
+
+/-! ### Non-vacuity: programs with scoping errors, evaluated by the kernel
+
+Each example runs the parse phase (cache-free twin, `C15_memo_transparent`), checks that no syntax error was
+recorded and all tokens were consumed, and then `scopeErrorsOf` = the three passes + `resolve` from the empty
+context. -/
+
+/-- The tokens of `x => y` (bytes: `x`0 `=>`2 `y`5). -/
+def C15_scopeToks1 : Array PModel.PTok := #[
+  ⟨.identifier 1, ⟨0, 1⟩⟩, ⟨.thickArrow, ⟨2, 4⟩⟩, ⟨.identifier 2, ⟨5, 6⟩⟩]
+
+-- unbound `y`: one error, the range of the `y` token
+example : ∃ r st, PModel.runParser C15_scopeToks1 = some (r, st) ∧
+    (PModel.collectErrors r.term, r.next, PModel.scopeErrorsOf r.term []) =
+      ([], 3, some [[⟨5, 6⟩]]) :=
+  PModel.runParser_eval C15_scopeToks1 40
+    (fun r => (PModel.collectErrors r.term, r.next, PModel.scopeErrorsOf r.term [])) _
+    (by decide +kernel)
+
+/-- The tokens of `(x : int) => (x : int) => x`
+(bytes: `(`0 `x`1 `:`3 `int`5 `)`8 `=>`10 `(`13 `x`14 `:`16 `int`18 `)`21 `=>`23 `x`26). -/
+def C15_scopeToks2 : Array PModel.PTok := #[
+  ⟨.leftParen, ⟨0, 1⟩⟩, ⟨.identifier 1, ⟨1, 2⟩⟩, ⟨.colon, ⟨3, 4⟩⟩, ⟨.integer, ⟨5, 8⟩⟩,
+  ⟨.rightParen, ⟨8, 9⟩⟩, ⟨.thickArrow, ⟨10, 12⟩⟩,
+  ⟨.leftParen, ⟨13, 14⟩⟩, ⟨.identifier 1, ⟨14, 15⟩⟩, ⟨.colon, ⟨16, 17⟩⟩, ⟨.integer, ⟨18, 21⟩⟩,
+  ⟨.rightParen, ⟨21, 22⟩⟩, ⟨.thickArrow, ⟨23, 25⟩⟩, ⟨.identifier 1, ⟨26, 27⟩⟩]
+
+-- re-bound `x`: one error, the range of the second binder's identifier token
+example : ∃ r st, PModel.runParser C15_scopeToks2 = some (r, st) ∧
+    (PModel.collectErrors r.term, r.next, PModel.scopeErrorsOf r.term []) =
+      ([], 13, some [[⟨14, 15⟩]]) :=
+  PModel.runParser_eval C15_scopeToks2 80
+    (fun r => (PModel.collectErrors r.term, r.next, PModel.scopeErrorsOf r.term [])) _
+    (by decide +kernel)
+
+/-- The tokens of `a = 1; a = 2; a` (bytes: `a`0 `=`2 `1`4 `;`5 `a`7 `=`9 `2`11 `;`12 `a`14). -/
+def C15_scopeToks3 : Array PModel.PTok := #[
+  ⟨.identifier 1, ⟨0, 1⟩⟩, ⟨.equals, ⟨2, 3⟩⟩, ⟨.integerLiteral 1, ⟨4, 5⟩⟩,
+  ⟨.terminator .semicolon, ⟨5, 6⟩⟩,
+  ⟨.identifier 1, ⟨7, 8⟩⟩, ⟨.equals, ⟨9, 10⟩⟩, ⟨.integerLiteral 2, ⟨11, 12⟩⟩,
+  ⟨.terminator .semicolon, ⟨12, 13⟩⟩, ⟨.identifier 1, ⟨14, 15⟩⟩]
+
+-- a group defining `a` twice: one error, the range of the second `a` on the left of `=`
+example : ∃ r st, PModel.runParser C15_scopeToks3 = some (r, st) ∧
+    (PModel.collectErrors r.term, r.next, PModel.scopeErrorsOf r.term []) =
+      ([], 9, some [[⟨7, 8⟩]]) :=
+  PModel.runParser_eval C15_scopeToks3 80
+    (fun r => (PModel.collectErrors r.term, r.next, PModel.scopeErrorsOf r.term [])) _
+    (by decide +kernel)
+
+/-- The tokens of `a = u; a = v; w` (same layout, `u` `v` `w` unbound). -/
+def C15_scopeToks4 : Array PModel.PTok := #[
+  ⟨.identifier 1, ⟨0, 1⟩⟩, ⟨.equals, ⟨2, 3⟩⟩, ⟨.identifier 2, ⟨4, 5⟩⟩,
+  ⟨.terminator .semicolon, ⟨5, 6⟩⟩,
+  ⟨.identifier 1, ⟨7, 8⟩⟩, ⟨.equals, ⟨9, 10⟩⟩, ⟨.identifier 3, ⟨11, 12⟩⟩,
+  ⟨.terminator .semicolon, ⟨12, 13⟩⟩, ⟨.identifier 4, ⟨14, 15⟩⟩]
+
+-- traversal order is not source order: the duplicate name `a` (byte 7) is reported *before* the unbound `u`
+-- (byte 4), because the names of a group are registered before its definitions are resolved
+example : ∃ r st, PModel.runParser C15_scopeToks4 = some (r, st) ∧
+    (PModel.collectErrors r.term, r.next, PModel.scopeErrorsOf r.term [],
+      PModel.traversalRanges r.term) =
+      ([], 9, some [[⟨7, 8⟩], [⟨4, 5⟩], [⟨11, 12⟩], [⟨14, 15⟩]],
+        [⟨0, 1⟩, ⟨7, 8⟩, ⟨4, 5⟩, ⟨11, 12⟩, ⟨14, 15⟩]) :=
+  PModel.runParser_eval C15_scopeToks4 80
+    (fun r => (PModel.collectErrors r.term, r.next, PModel.scopeErrorsOf r.term [],
+      PModel.traversalRanges r.term)) _
+    (by decide +kernel)
+
+/-- "The scoping errors of a program come in source order" — **false** for a group (example above). -/
+def C15_scope_errors_in_source_order_unrestricted : Prop :=
+  ∀ (toks : Array PModel.PTok) (r : PModel.PResult) (st : PModel.PState) (es : List PModel.PErr),
+    PModel.runParser toks = some (r, st) → PModel.collectErrors r.term = [] →
+    PModel.scopeErrorsOf r.term [] = some es →
+    es.Pairwise (fun e1 e2 => ∀ r1 ∈ e1, ∀ r2 ∈ e2, r1.start ≤ r2.start)
+
+theorem C15_scope_errors_in_source_order_refuted : ¬ C15_scope_errors_in_source_order_unrestricted := by
+  intro H
+  obtain ⟨r, st, hr, ho⟩ := PModel.runParser_eval C15_scopeToks4 80
+    (fun r => (PModel.collectErrors r.term, PModel.scopeErrorsOf r.term []))
+    ([], some [[⟨7, 8⟩], [⟨4, 5⟩], [⟨11, 12⟩], [⟨14, 15⟩]]) (by decide +kernel)
+  simp only [Prod.mk.injEq] at ho
+  have := H _ _ _ _ hr ho.1 ho.2
+  revert this
+  decide
+
+-- the counterexample of `C15_scope_error_is_identifier_refuted`: `(y)` reports the range of the group `0..3`
+example : ∃ r st, PModel.runParser C15_parenToks = some (r, st) ∧
+    (PModel.collectErrors r.term, r.next, PModel.scopeErrorsOf r.term []) =
+      ([], 3, some [[⟨0, 3⟩]]) :=
+  PModel.runParser_eval C15_parenToks 40
+    (fun r => (PModel.collectErrors r.term, r.next, PModel.scopeErrorsOf r.term [])) _
+    (by decide +kernel)
+
+theorem C15_scopeToks1_no_paren :
+    ∀ i : Fin C15_scopeToks1.size, C15_scopeToks1[i].kind ≠ .leftParen := by decide
+
+-- the hypothesis of `C15_scope_error_is_identifier` holds of the first example's tokens
+example : ∀ i x, PModel.KAt C15_scopeToks1 i .leftParen → PModel.KAt C15_scopeToks1 (i + 1) (.identifier x) →
+    PModel.KAt C15_scopeToks1 (i + 2) .rightParen → False := by
+  intro i x ⟨h, hk⟩ _ _
+  exact C15_scopeToks1_no_paren ⟨i, h⟩ hk
